@@ -86,6 +86,7 @@ package stream
 //@   ensures#stored err != nil ==> r.err == err && n == 0 && len(r.unread) == 0                                             [C02 C13]
 //@   ensures#keeperr old(r.err) != nil ==> r.err == old(r.err)                                                               [C02 C13]
 //@   ensures#chunkerr lasterr("readChunk",1) != nil ==> err == lasterr("readChunk",1)                                        [C13]
+//@   ensures#probed (r.err == io.EOF && old(r.err) == nil) ==> calls("Read",1) == old(calls("Read",1)) + 1                         [C02 C13]
 //@   ensures#probeerr (lasterr("Read",1) != nil && lasterr("Read",1) != io.EOF && lastret("Read",1,0) == 0) ==> wraps(r.err, lasterr("Read",1))   [C13 C14]
 //@   ensures#buffered len(old(r.unread)) > 0 ==> err == nil && n == min(len(p), len(old(r.unread))) && r.src.$rem == old(r.src.$rem) && r.err == old(r.err)   [C01 C02 C12]
 //@   ensures#bufdata len(old(r.unread)) > 0 ==> sub(bytes(p), 0, n) == sub(old(bytes(r.unread)), 0, n)                     [C01 C02 C12]
